@@ -58,9 +58,15 @@ WORD_ALPHABET = "abcxyz019._*?[]~%#;:/=+-"
 HOSTILE = ['"', "\\", "~", "%", "(", ";", "#", "\x01", "é", "'", "a b", "*", "?", "[", "☃", "\u00a0", "\u3000", "\x0b", "\x0c", "\u0085", "\u2028"]
 
 
+UNICODE_LETTERS = "éÜñЖжλ日本語한💾→ß"
+
+
 def word(rng, hostile=0.15):
     n = rng.randint(1, 6)
     s = "".join(rng.choice(WORD_ALPHABET) for _ in range(n))
+    if rng.random() < 0.12:
+        pos = rng.randint(0, len(s))
+        s = s[:pos] + "".join(rng.choice(UNICODE_LETTERS) for _ in range(rng.randint(1, 3))) + s[pos:]
     if rng.random() < hostile:
         pos = rng.randint(0, len(s))
         s = s[:pos] + rng.choice(HOSTILE) + s[pos:]
@@ -331,3 +337,26 @@ def source_dictionary():
             words.add(m.group(0))
     _DICT = sorted(words)[:200]
     return _DICT
+
+
+def scale_cases(rng):
+    """inputs that are large in one dimension at a time (counts of every repeatable thing)"""
+    out = []
+    out.append("-type " + ",".join(rng.choice(TYPES) for _ in range(300)))
+    out.append("-perm " + ",".join(rng.choice("ugoa") + rng.choice("+=-") + rng.choice("rwx") for _ in range(500)))
+    out.append("-perm /" + ",".join("ugoa=rwx" for _ in range(200)))
+    out.append("-printf '" + "".join(rng.choice(["%p", "%s", "\\n", "\\101", "ab", "%%", "%{fid}", "%Ak", "~", "é"]) for _ in range(400)) + "'")
+    out.append(" -o ".join("-name n%d" % i for i in range(300)))
+    out.append(" ".join("-iname 'N%d*'" % (i % 150) for i in range(300)) + " -print0")
+    out.append(" ".join("-threads %d" % i for i in range(200)) + " -true")
+    out.append("-true " + " ".join("-depth" for _ in range(200)))
+    out.append("! " * 300 + "-true")
+    out.append(" , ".join("-true" for _ in range(300)))
+    out.append("-name " + "".join(rng.choice(UNICODE_LETTERS + "ab*?[") for _ in range(3000)))
+    out.append(" ".join("-fprint f%d" % i for i in range(300)))
+    out.append(" ".join("-fprintf g%d '%%p\\n'" % (i % 100) for i in range(300)))
+    out.append("-xattr-match " + "k" * 2000 + " " + "v" * 2000)
+    out.append("( " * 100 + "-size +%d" % (2**63) + "T" + " )" * 100)
+    out.append("-uid " + "0" * 500 + "7")
+    out.append(" ".join("%s %d" % (rng.choice(TIME_KW), i) for i in range(200)))
+    return out
